@@ -32,7 +32,20 @@ type c11Read struct {
 	StructN  int    `json:"struct_len"` // length of the struct encoding (without trailing bytes)
 	Want     c11Val `json:"want"`
 	Desc     string `json:"desc"`
+	Reuse    bool   `json:"decode_into_used_struct,omitempty"`
 }
+
+// a previous message with all fields set and a two-entry map (decoded first when Reuse is set)
+var c11PrevBase = func() []byte {
+	m := strMapV("old1", "x", "old2", "y")
+	v := baseStruct("oldlog", "oldcaller", "oldaddr", &m)
+	return ref.Encode(nil, &v)
+}()
+var c11PrevResp = func() []byte {
+	m := strMapV("old1", "x", "old2", "y")
+	v := baseRespStruct("oldmsg", 99, &m)
+	return ref.Encode(nil, &v)
+}()
 
 func (v c11Val) extra() map[string]string {
 	if !v.HasMap {
@@ -183,11 +196,17 @@ func c11ReadOne(c *mc.Ctx, k c11Read, in []byte) {
 		switch k.Kind {
 		case "base":
 			var x base.Base
+			if k.Reuse { // the struct was used for another message before: a map in the new message replaces the old one
+				x.FastRead(c11PrevBase)
+			}
 			n, err = x.FastRead(in)
 			got.S = [3]string{x.LogID, x.Caller, x.Addr}
 			got.HasMap, got.Extra = x.Extra != nil, x.Extra
 		case "baseresp":
 			var x base.BaseResp
+			if k.Reuse {
+				x.FastRead(c11PrevResp)
+			}
 			n, err = x.FastRead(in)
 			got.S[0], got.I = x.StatusMessage, x.StatusCode
 			got.HasMap, got.Extra = x.Extra != nil, x.Extra
@@ -371,6 +390,10 @@ func c11Run(c *mc.Ctx) {
 				for _, tr := range trailers {
 					in := append(append([]byte{}, enc...), tr...)
 					c11ReadOne(c, c11Read{Kind: kd.kind, StructN: len(enc), Want: want, Desc: desc}, in)
+				}
+				if len(sel) == len(kd.fields) && kd.kind != "exception" && ins == nil {
+					in := append([]byte{}, enc...)
+					c11ReadOne(c, c11Read{Kind: kd.kind, StructN: len(enc), Want: want, Desc: desc + ", decoded into a struct that held another message", Reuse: true}, in)
 				}
 			}
 			run(nil, fmt.Sprintf("known fields in order %v", sel))
